@@ -31,8 +31,8 @@ TOL = 1e-6
 
 
 def run(ctx: Ctx) -> None:
-    n = 160 if ctx.quick else 4000
-    interpolated_pairs(ctx, 30 if ctx.quick else 1500)
+    n = 160 if ctx.quick else 20000
+    interpolated_pairs(ctx, 30 if ctx.quick else 8000)
     for idx in ctx.indices("pairs", n):
         r = ctx.rng("pairs", idx)
         task = ["detection", "tracking", "detection", "fp_validation"][idx % 4]
